@@ -6,6 +6,7 @@
    per-target premise [uri_ok] about rhymuri (known findings K2, K3) and to the re-serialised
    lines fitting the limits (the property's own quantifier). *)
 From Coq Require Import String.
+From Http Require Import Proofs.FoldRoundTrip.
 From Http Require Import Model.Bytes Model.Num Model.Headers Model.Request Model.Response
      Spec.HeaderGrammar Spec.RequestGrammar Spec.ResponseGrammar Proofs.RoundTrip Proofs.Reserialise Proofs.DechunkWf.
 
@@ -131,3 +132,36 @@ Example C11_fold_at_tab :
   hdr_generate_full (Some 12%N) [(str "A"%string, str "bcdef"%string ++ [HT] ++ str "ghij"%string)]
   = GOk (str "A: bcdef"%string ++ CRLF ++ [HT] ++ str "ghij"%string ++ CRLF ++ CRLF).
 Proof. vm_compute. reflexivity. Qed.
+
+(* ---- what does survive folding: headers whose values are graphic characters separated by single
+   spaces ([tight]) are re-serialised by the folding generator -- whatever their length, however many
+   continuation lines it takes -- into a header block of the grammar that parses back to exactly the
+   same header list.  Together with the refutation above this pins known finding K6 down to values
+   that cannot be split and to tabs / runs of white space at a split point. ---- *)
+Theorem C11_folded_headers_parse_back :
+  forall l hs b rest,
+    (2 <= l)%N -> Forall tight_header hs -> hdr_generate_full (Some l) hs = GOk b ->
+    hdr_parse (Some l) [] (b ++ rest) = HComplete hs (length b).
+Proof. exact folded_block_parses_back. Qed.
+Print Assumptions C11_folded_headers_parse_back.
+
+Theorem C11_folded_block_is_grammatical :
+  forall l hs b,
+    (2 <= l)%N -> Forall tight_header hs -> hdr_generate_full (Some l) hs = GOk b ->
+    exists fs, b = header_block fs /\ block_ok (Some l) fs /\ map field_header fs = hs.
+Proof. exact folded_block_is_grammatical. Qed.
+Print Assumptions C11_folded_block_is_grammatical.
+
+(* non-vacuity: a value of three words under a limit that forces two folds *)
+Example C11_folding_example :
+  let h := (str "X"%string, str "aaaa bbbb cccc"%string) in
+  tight_header h
+  /\ hdr_generate_full (Some 11%N) [h]
+     = GOk (str "X: aaaa"%string ++ CRLF ++ str " bbbb"%string ++ CRLF ++ str " cccc"%string ++ CRLF ++ CRLF)
+  /\ hdr_parse (Some 11%N) [] (str "X: aaaa"%string ++ CRLF ++ str " bbbb"%string ++ CRLF ++ str " cccc"%string ++ CRLF ++ CRLF)
+     = HComplete [h] 25.
+Proof.
+  split; [|split; vm_compute; reflexivity].
+  split; [split; reflexivity|].
+  vm_compute. repeat first [apply tight_one; reflexivity | apply tight_sp; [reflexivity|] | apply tight_cons; [reflexivity|]].
+Qed.
